@@ -315,3 +315,22 @@ func TestFindingF16DoubleClose(t *testing.T) {
 	h1.Close(context.Background())
 	require.NoError(t, h2.DefaultDataStore().SetRaw("k", 0, nil, []byte(`{"v":1}`)), "the other handle must keep working")
 }
+
+// F17 [C05,C06,C08] an xattr-only write to a missing or deleted key leaves a body-less row flagged tombstone=0: the feed
+// announces a mutation for a document without a body and a following Add is refused.
+func TestFindingF17XattrOnlyWriteOnMissingKey(t *testing.T) {
+	_, c := findingBucket(t)
+	events := findingFeed(t, c)
+	_, err := c.SetXattrs(context.Background(), "k", map[string][]byte{"_x": []byte(`{"a":1}`)})
+	require.NoError(t, err)
+	r := findingReadRow(t, c, "k")
+	require.True(t, r.present)
+	require.True(t, r.valueNull)
+	require.Equal(t, 1, r.tombstone, "a document without a body is a tombstone")
+	e := findingNext(t, events)
+	require.NotNil(t, e)
+	require.Equal(t, sgbucket.FeedOpDeletion, e.Opcode, "deletion opcode iff the result has no body")
+	added, err := c.AddRaw("k", 0, []byte(`{"v":1}`))
+	require.NoError(t, err)
+	require.True(t, added, "Add must create a key that has no body")
+}
